@@ -1,9 +1,8 @@
 #!/bin/bash
 # full pass on the unchanged tree: quick tier with several seeds, thorough tier, then the seeded-change matrix
 cd /verif
-while pgrep -f run_all.sh > /dev/null; do sleep 20; done
 tools/run_all.sh quick 1 2 3 4 5 6 > /dev/null 2>&1; cp work/run_all_quick.txt work/soak_quick.txt
-tools/run_all.sh thorough 0 1 > /dev/null 2>&1; cp work/run_all_thorough.txt work/soak_thorough.txt
+tools/run_all.sh thorough 2 > /dev/null 2>&1; cp work/run_all_thorough.txt work/soak_thorough.txt
 tools/mutant_matrix.sh > /dev/null 2>&1
 echo "quick violations: $(grep -c VIOLATION work/soak_quick.txt)  thorough violations: $(grep -c VIOLATION work/soak_thorough.txt)"
 cat work/mutant_matrix.txt
